@@ -183,6 +183,11 @@ def gen_history(rng, spec, opts, length=None, keep_nonempty=0.85):
             dim = rng.choice([ydim, xdim, ydim, xdim] + [d for d in sizes if d not in (ydim, xdim)])
             for _try in range(6):
                 s = gen_slice(rng, sizes[dim])
+                if opts["dask"] and (s[2] or 1) < 0 and s[0] is not None and s[0] < -sizes[dim]:
+                    # dask (2026.8) mis-normalises a start below -n with a negative step (da.arange(2)[-3:-2:-1]
+                    # has 1 element, numpy 0): data and coordinates of the xarray object then disagree.  Outside
+                    # the xarray/dask contract this property relies on; such slices are exercised on numpy only.
+                    s[0] = None
                 m = len(range(*slice(*s).indices(sizes[dim])))
                 if (m >= 2 or (m >= 1 and rng.random() < 0.35)) or rng.random() > keep_nonempty:
                     break
